@@ -72,7 +72,7 @@ PLAN = {
         "vacuity": [("DevFresh", "CfgsQ1", "NoZombie"), ("DevGate", "CfgsQ1", "NoZombie"), ("DevNoRemove", "CfgsQ1", "Forgotten")],
         "scen_quick": ["h1-max1-A", "h1-max1-AA", "h1-tls-max1-AAB", "h2-max1-AA", "tun-max1-AAB", "h1-max1-pto", "socks-max1-AA", "fwd-max1-AA", "socks-guess-max1-AA"],
         "scen_thorough": ["h1-max1-A", "h1-max1-AA", "h1-max1-AAB", "h1-tls-max1-AAB", "h1-max1-close", "h1-max1-abandon", "h1-guess-max1", "h1-max2-ABA-keep1", "h2-max1-AA", "h2-max1-AAB", "tun-max1-AAB", "fwd-max1-AAB", "socks-max1-AAB", "h1-max1-pto", "h1-max1-pto-AB"],
-        "strategies": ["base", "fault", "cancel-scope", "cancel-native", "time"],
+        "strategies": ["base", "fault", "seq+fault", "cancel-scope", "cancel-native", "time"],
     },
     "C06": {
         "scen_trio": ["h1-tls-max1-AAB", "h2-max1-AA"],
@@ -304,6 +304,9 @@ class PoolRunner:
                     self.add(scen, label, run)
             if "fault" in strategies:
                 for label, run in explore.fault_variants(scen.make):
+                    self.add(scen, label, run)
+            if "seq+fault" in strategies and "seq+fault" not in scen.skip:
+                for label, run in explore.fault_variants(scen.make, decide0=explore.sequential_decide, tag="seq+fault"):
                     self.add(scen, label, run)
             styles = []
             if "cancel-scope" in strategies:
